@@ -4,7 +4,8 @@ C10 — mod.DagModifier: executable model (tree layer + control layer).
 
 Transcribed from /repo/ipld/unixfs/mod/dagmodifier.go AFTER the `fix:` commits of branch verif/import
 (Seek: SeekEnd sign / negative targets / absolute reader seek; WriteAt: offset bookkeeping and shorter
-rewrite; Write: a new buffer starts at curWrOff; the reader is dropped when curNode changes; a dag-pb leaf
+rewrite; Write: a new buffer starts at curWrOff, and a shrinking Truncate takes an offset that reads moved
+beyond the new end back to max(writeStart, size); the reader is dropped when curNode changes; a dag-pb leaf
 root is turned into a file node before blocks are appended):
 
   tree layer
@@ -218,7 +219,9 @@ def truncate (c : Cfg) (s : DM) (sz : Nat) : DM × Bool :=
     else
       match dagTruncate s1.cur sz with
       | none => (s1, false)
-      | some t => ({ s1 with cur := t }, true)
+      | some t =>
+        -- `if dm.curWrOff > size { dm.curWrOff = max(dm.writeStart, size) }`: forget read progress beyond the new end
+        ({ s1 with cur := t, curWrOff := if s1.curWrOff > sz then max s1.writeStart sz else s1.curWrOff }, true)
 
 /-- GetNode() -/
 def getNode (c : Cfg) (s : DM) : DM × Option FNode :=
